@@ -128,6 +128,9 @@ type Way struct {
 	// NoRefs omits field 8 entirely (an empty way); with false and len(Refs)==0 an
 	// empty packed field is written.
 	NoRefs bool
+	// FieldsReversed writes the fields of the Way message in the opposite order (lons, lats,
+	// refs, info, vals, keys, id): any field order is a legal encoding of the same message.
+	FieldsReversed bool
 }
 
 // Member of a relation. Type: 0 node, 1 way, 2 relation.
@@ -145,6 +148,8 @@ type Relation struct {
 	Members []Member
 	// NoMembers omits fields 8-10 entirely.
 	NoMembers bool
+	// FieldsReversed: see Way.FieldsReversed.
+	FieldsReversed bool
 }
 
 // strtab builds a block's string table.
@@ -398,7 +403,52 @@ func encWay(wy *Way, st *strtab, dmg string) []byte {
 	if lons != nil {
 		w.fBytes(10, packedSint(delta(lons)))
 	}
+	if wy.FieldsReversed {
+		return reverseFields(w.b)
+	}
 	return w.b
+}
+
+// reverseFields re-emits the top-level fields of a message (varint and length-delimited
+// fields only) in the opposite order.
+func reverseFields(b []byte) []byte {
+	var fields [][]byte
+	for len(b) > 0 {
+		i := 0
+		for b[i]&0x80 != 0 {
+			i++
+		}
+		wt := b[0] & 7
+		i++
+		switch wt {
+		case 0:
+			for b[i]&0x80 != 0 {
+				i++
+			}
+			i++
+		case 2:
+			var l, shift uint64
+			for {
+				c := b[i]
+				i++
+				l |= uint64(c&0x7f) << shift
+				shift += 7
+				if c&0x80 == 0 {
+					break
+				}
+			}
+			i += int(l)
+		default:
+			panic("pbfgen: reverseFields: unexpected wire type")
+		}
+		fields = append(fields, b[:i])
+		b = b[i:]
+	}
+	var out []byte
+	for k := len(fields) - 1; k >= 0; k-- {
+		out = append(out, fields[k]...)
+	}
+	return out
 }
 
 func encRelation(r *Relation, st *strtab, dmg string) []byte {
@@ -433,6 +483,9 @@ func encRelation(r *Relation, st *strtab, dmg string) []byte {
 		w.fBytes(8, packedInt(roles))
 		w.fBytes(9, packedSint(delta(ids)))
 		w.fBytes(10, packedInt(types))
+	}
+	if r.FieldsReversed {
+		return reverseFields(w.b)
 	}
 	return w.b
 }
